@@ -1,0 +1,9 @@
+//go:build verif
+
+package resolver
+
+// VerifGlobstarToEscapedRegexp exports globstarToEscapedRegexp (the translation of a package.json
+// "sideEffects" array entry to a regular expression text) for the verification harness.
+func VerifGlobstarToEscapedRegexp(glob string) (string, bool) {
+	return globstarToEscapedRegexp(glob)
+}
